@@ -1,7 +1,7 @@
 #!/bin/bash
 # scores every seeded change against its own property's check and the checks that are expected to see it
 cd /verif
-declare -A L=( [c01a]="C01 C03" [c02a]="C02" [c03a]="C01 C03" [c04a]="C04 C16" [c05a]="C03 C05" [c05b]="C05 C19" [c07a]="C07 C16" [c10a]="C10 C20" [c11a]="C11" [c12a]="C12 C03" [c16a]="C03 C16" [c19a]="C19 C05" [c20a]="C20" [c06b]="C06 C01" [c08b]="C08 C04 C01" [c09b]="C09" [c13b]="C13" [c14b]="C14" [c15b]="C15" [c17b]="C17" [c18b]="C18" [c01b]="C01" [c02b]="C02 C01" [c03b]="C03 C10" [c19c]="C19" [c08c]="C08" [c14c]="C14" [c16c]="C16 C04" [c20c]="C20" [c12c]="C11 C12" [c10c]="C10" [c02c]="C02" [c07c]="C07 C13" [c13c]="C13" [c04c]="C04 C07" [c11c]="C11" [c09d]="C09" [c18d]="C18 C01" [c15d]="C15" [c06d]="C06" [c05d]="C05" [c16d]="C16" [c17d]="C17" [c20d]="C20" [c01d]="C01 C02" [c03d]="C03" [c01e]="C01 C02" [c02e]="C02" [c04e]="C04 C17 C19" [c06e]="C06 C17" [c07e]="C07 C05" [c10e]="C10" [c11e]="C11 C19" [c12e]="C12 C03" [c16e]="C16" [c17e]="C17 C19" [c19e]="C19 C05" [c03f]="C03" [c05f]="C05 C19" [c08f]="C08 C04" [c09f]="C09" [c13f]="C13" [c14f]="C14" [c15f]="C15" [c18f]="C18" [c20f]="C20" [c01f]="C01 C02" [c02f]="C02" [c12f]="C12" [c15g]="C15" [c19g]="C19 C11" [c13g]="C13" [c14g]="C14" [c16g]="C16 C04" [c05g]="C05 C09" [c04g]="C04 C16" [c06g]="C06" [c17g]="C17" [c11g]="C11" )
+declare -A L=( [c01a]="C01 C03" [c02a]="C02" [c03a]="C01 C03" [c04a]="C04 C16" [c05a]="C03 C05" [c05b]="C05 C19" [c07a]="C07 C16" [c10a]="C10 C20" [c11a]="C11" [c12a]="C12 C03" [c16a]="C03 C16" [c19a]="C19 C05" [c20a]="C20" [c06b]="C06 C01" [c08b]="C08 C04 C01" [c09b]="C09" [c13b]="C13" [c14b]="C14" [c15b]="C15" [c17b]="C17" [c18b]="C18" [c01b]="C01" [c02b]="C02 C01" [c03b]="C03 C10" [c19c]="C19" [c08c]="C08" [c14c]="C14" [c16c]="C16 C04" [c20c]="C20" [c12c]="C11 C12" [c10c]="C10" [c02c]="C02" [c07c]="C07 C13" [c13c]="C13" [c04c]="C04 C07" [c11c]="C11" [c09d]="C09" [c18d]="C18 C01" [c15d]="C15" [c06d]="C06" [c05d]="C05" [c16d]="C16" [c17d]="C17" [c20d]="C20" [c01d]="C01 C02" [c03d]="C03" [c01e]="C01 C02" [c02e]="C02" [c04e]="C04 C17 C19" [c06e]="C06 C17" [c07e]="C07 C05" [c10e]="C10" [c11e]="C11 C19" [c12e]="C12 C03" [c16e]="C16" [c17e]="C17 C19" [c19e]="C19 C05" [c03f]="C03" [c05f]="C05 C19" [c08f]="C08 C04" [c09f]="C09" [c13f]="C13" [c14f]="C14" [c15f]="C15" [c18f]="C18" [c20f]="C20" [c01f]="C01 C02" [c02f]="C02" [c12f]="C12" [c15g]="C15" [c19g]="C19 C11" [c13g]="C13" [c14g]="C14" [c16g]="C16 C04" [c05g]="C05 C09" [c04g]="C04 C16" [c06g]="C06" [c17g]="C17" [c11g]="C11" [c10g]="C10 C07" [c07g]="C07" )
 ONLY=${1:-.}
 for m in $(echo "${!L[@]}" | tr ' ' '\n' | sort | grep -E "$ONLY"); do
   tools/try_mutant.sh seeded/$m/patch.diff quick ${L[$m]} 2>&1 | grep -v condarc > seeded/$m/matrix.txt
